@@ -684,6 +684,8 @@ class Loader:
                     _LOGGER.critical('Removing incorrect placement: %s/%s',
                                      app2server[app], app)
                     self.backend.delete(z.path.placement(app2server[app], app))
+                    # The record that is kept is the one under this server.
+                    app2server[app] = server
 
         # Cross check that all apps in the model are recorded in placement.
         success = True
